@@ -272,6 +272,27 @@ def accept_rules(fi, pm):
             ok = None
     if ok is not None:
         out.append((holds if ok else unrecognised)("R-ACCEPT", fi, role, src.get("loss_prev", "?"), fi.node, nontrivial=False))
+    # sibling agreement: the sequence that is enumerated in the search and the sequence that is indexed when the winner is applied
+    role_e = "the winning index refers to the same list that was enumerated in the search"
+    enum_src = None
+    for l_ in [n_ for n_ in walk_no_nested(fi.node) if isinstance(n_, ast.For)]:
+        it = l_.iter
+        if isinstance(it, ast.Call) and dotted(it.func) == "enumerate" and it.args:
+            a0 = it.args[0]
+            while isinstance(a0, ast.Call) and dotted(a0.func) in ("tqdm", "tqdm.tqdm", "list", "iter") and a0.args:
+                a0 = a0.args[0]
+            if any("best_motif_idx" in unparse(x) for x in ast.walk(l_)):
+                enum_src = a0
+    appl = [n_ for n_ in walk_no_nested(fi.node) if isinstance(n_, ast.Subscript) and unparse(n_.slice) == "best_motif_idx"]
+    if enum_src is None or not appl:
+        out.append(unrecognised("R-SIB", fi, role_e, "search loop / application index not found"))
+    elif any(unparse(a_.value) != unparse(enum_src) for a_ in appl):
+        from ..core import named
+        bad_ = [a_ for a_ in appl if unparse(a_.value) != unparse(enum_src)][0]
+        out.append(named("R-SIB", fi, role_e, "the search enumerates `%s` but the winner is taken from `%s[best_motif_idx]`: when the two lists differ "
+                         "another motif than the one scored is substituted" % (unparse(enum_src)[:40], unparse(bad_.value)[:40]), bad_))
+    else:
+        out.append(holds("R-SIB", fi, role_e, "enumerate(%s) / %s[best_motif_idx]" % (unparse(enum_src), unparse(enum_src)), appl[0]))
     role = "the function returns the current sequence"
     ret = [s for s in walk_no_nested(fi.node) if isinstance(s, ast.Return)]
     ok = len(ret) == 1 and unparse(ret[0].value) == "X"
